@@ -154,7 +154,7 @@ impl FrequencyCounter {
     }
 
     fn matrix(total_counters: TotalCounters) -> [Row; ROWS] {
-        let total_counters = (total_counters / 2) as usize;
+        let total_counters = ((total_counters + 1) / 2) as usize;
         let rows =
             (0..ROWS)
                 .map(|_index| Row(vec![0; total_counters]))
